@@ -222,7 +222,7 @@ def main(argv=None) -> int:
             own = e.get("property")
             if own in props and own not in fired and own not in errs:
                 status = "MISS"
-        elif e["kind"] == "neutral" and e["id"] in ("C01_9",):
+        elif e["kind"] == "neutral" and e["id"].startswith("C") and "_" in e["id"]:
             if fired:
                 status = "FALSE-ALARM"  # errors are tolerated for a non-equivalent change
         else:
